@@ -19,6 +19,41 @@ pub fn is_bound_once(counts: &BinderCounts, name: &str) -> bool {
     counts.get(name).copied().unwrap_or(0) == 1
 }
 
+// number of leading top-level statements that neither call anything nor create a function
+// value (fn / struct declarations, imports, lets over literals, names and operators):
+// nothing declared in the program can run before the first statement after them
+pub fn leading_declarations(stmts: &[TypedStmt]) -> usize {
+    stmts
+        .iter()
+        .position(|s| !is_quiet_stmt(s))
+        .unwrap_or(stmts.len())
+}
+
+fn is_quiet_stmt(stmt: &TypedStmt) -> bool {
+    match &stmt.kind {
+        TypedStmtKind::Function(_) | TypedStmtKind::StructDecl { .. } | TypedStmtKind::Needs(_) => true,
+        TypedStmtKind::Let { initializer, .. } => is_quiet_expr(initializer),
+        _ => false,
+    }
+}
+
+fn is_quiet_expr(expr: &TypedExpr) -> bool {
+    match &expr.kind {
+        TypedExprKind::Int(_)
+        | TypedExprKind::Float(_)
+        | TypedExprKind::Bool(_)
+        | TypedExprKind::String(_)
+        | TypedExprKind::Null
+        | TypedExprKind::Identifier(_) => true,
+        TypedExprKind::Binary { left, right, .. }
+        | TypedExprKind::And { left, right }
+        | TypedExprKind::Or { left, right } => is_quiet_expr(left) && is_quiet_expr(right),
+        TypedExprKind::Unary { operand, .. } => is_quiet_expr(operand),
+        TypedExprKind::Grouping(inner) => is_quiet_expr(inner),
+        _ => false,
+    }
+}
+
 fn bind(name: &str, counts: &mut BinderCounts) {
     *counts.entry(name.to_string()).or_insert(0) += 1;
 }
